@@ -1,12 +1,12 @@
 def I(name, entry, **kw):
-    d = dict(name=name, entry=entry, unwind=6, timeout_s=300, model_loop_bound=26, mem_gb=6, tiers=('quick', 'thorough'),
+    d = dict(name=name, entry=entry, unwind=6, timeout_s=120, model_loop_bound=26, mem_gb=6, tiers=('quick', 'thorough'),
              bound='offers <= 3 names, disabled <= 2 names'); d.update(kw); return d
 SPEC = dict(
     property='C05',
     groups=[
         dict(name='choose', harness='h.cpp', ranges_shim=True,
              tus=['src/base/QXmppSasl.cpp', 'src/client/QXmppConfiguration.cpp'],
-             models=['c05_str.c', 'qt_list.c', 'models.c'], cxxdefs={'VP_NOFF': 3, 'VP_NDIS': 2, '_GLIBCXX_RANGES': 1},
+             models=['c05_str.c', 'qt_list.c', 'models.c'], cxxdefs={'VP_NOFF': 3, 'VP_NDIS': 2, '_GLIBCXX_RANGES': 1}, loop_bounds={r'nameOf': 26},
              instances=[I('choose', 'h_choose'), I('default_plain', 'h_default_plain')]),
     ],
     bounds=[], assumptions=[], outside=[],
